@@ -45,6 +45,10 @@ func (c *containerServer) handleExecve(cmd *execCmd, msg unixsocket.Msg) error {
 		files = files[1:]
 	}
 
+	if len(cmd.Argv) == 0 {
+		return c.sendErrorReply("handle: no argv provided")
+	}
+
 	var env []string
 	env = append(env, c.defaultEnv...)
 	env = append(env, cmd.Env...)
